@@ -64,7 +64,7 @@ class _W:
         try:
             with open(self.errpath, "rb") as f:
                 d = f.read()
-            return d[-n:].decode(errors="replace")
+            return (d if len(d) <= n else d[:n - 1500] + b"\n...\n" + d[-1500:]).decode(errors="replace")
         except OSError:
             return ""
 
